@@ -90,6 +90,8 @@ def parse_lp_packet(wire: BinaryStr, with_tl: bool = True) -> (int | None, Binar
     """
     ret = parse_lp_packet_v2(wire, with_tl)
     if ret.nack is not None:
+        if ret.nack.nack_reason is None:
+            return NackReason.NONE, ret.fragment
         return ret.nack.nack_reason, ret.fragment
     else:
         return None, ret.fragment
